@@ -89,4 +89,38 @@ ValidHistory(h, msgOnly) ==
 StepResp(binds, s) == Resp(binds, "cA", s.b, s.d, s.ch)
 \* what every device of devs says to the answer of step s, for each challenge it may have outstanding
 StepVerdicts(binds, wild, s, devs) == {[d |-> d, ch |-> ch, v |-> Verdict(StepResp(binds, s), d, ch, binds, wild)] : d \in devs, ch \in Chals}
+
+\* ------------------------------------------------------------------ histories of ONE credential object (enumerated by DatGen, decided step by step in DatTrace)
+\* The host holds a credential as an OBJECT: the values of the signed field classes CredFields and, once signed, the signature term
+\* Sig(rotk, <the values the fields had when the root-of-trust key signed>).  What an export puts on the wire is
+\* Cat(<current field values>, <that signature>), and the device recomputes the signed message from the bytes in front of the
+\* signature: the exported credential is DcTerm(c, intact) with intact = (values signed = values exported).  Nothing else of the
+\* object's past counts.  Operations on the object:
+\*   Sign    : the RoT key signs the CURRENT values (an object made from a configuration has the signing key; an object parsed from
+\*             bytes has none - whether such a Sign is refused is the host's business, but a Sign that RETURNS has signed)
+\*   Set f   : field class f gets another value
+\*   Export  : the object is serialised (there is nothing to export while the object has no signature)
+\*   Parse   : the host goes on with the object parsed back from the bytes of the last export
+\* o = [alive, lost, cur, over, st, prov, wire, wst]:  cur = current values, over = values under the signature,
+\*   st  = "unsigned" | "signed" | "unknown"   ("unknown": after an export whose signature was not over the current values - the host
+\*         used the object outside its documented order sign() -> export(); nothing is said about that export or about the signature
+\*         the object holds afterwards, until the next Sign)
+\*   wire = values on the wire of the last export, wst = "none" | "clean" | "unknown";  lost: the host parsed an export nothing is said about
+CredFields == {"socc", "uuid", "socu", "vu", "beacon", "dck"}
+CredNew(vals) == [alive |-> TRUE, lost |-> FALSE, cur |-> vals, over |-> vals, st |-> "unsigned", prov |-> TRUE, wire |-> vals, wst |-> "none"]
+CredClean(o) == o.st = "signed" /\ o.over = o.cur
+CredOnWire(o) == [dc |-> DcTerm("cA", o.over = o.cur)]             \* what the device's CheckDcSignature looks at
+CredSigned(o) == [o EXCEPT !.over = o.cur, !.st = "signed"]
+CredSetTo(o, f, v) == [o EXCEPT !.cur[f] = v]
+CredExported(o) == IF CredClean(o) THEN [o EXCEPT !.wire = o.cur, !.wst = "clean"] ELSE [o EXCEPT !.st = "unknown", !.wst = "unknown"]
+CredParsed(o) == IF o.wst = "clean" THEN [o EXCEPT !.cur = o.wire, !.over = o.wire, !.st = "signed", !.prov = FALSE]
+                 ELSE [o EXCEPT !.lost = TRUE, !.prov = FALSE]
+\* the reference object (GEN): two values per field class, Set toggles; a Sign without the key and an export without a signature do nothing
+CredOps == {[op |-> "Sign", f |-> "-"], [op |-> "Export", f |-> "-"], [op |-> "Parse", f |-> "-"]} \cup {[op |-> "Set", f |-> f] : f \in CredFields}
+CredStep(o, op) == CASE op.op = "Sign" -> IF o.prov THEN CredSigned(o) ELSE o
+                     [] op.op = "Set" -> CredSetTo(o, op.f, IF o.cur[op.f] = "v0" THEN "v1" ELSE "v0")
+                     [] op.op = "Export" -> IF o.st = "unsigned" THEN o ELSE CredExported(o)
+                     [] op.op = "Parse" -> CredParsed(o)
+MaxCredHistory == 6
+MaxCredSets == 2
 =============================================================================
